@@ -399,3 +399,8 @@ ok('get-honours-timeout', [(U, "        try:\n            return self._pipe.recv
 br('C03', 'send_result-swallows-everything', (PRM, "        self._counter += 1\n        send_msg(self._socket, (self._counter, True, result, self.id), comment=f'data: partial result {self._counter}')",
                                               "        self._counter += 1\n        try:\n            send_msg(self._socket, (self._counter, True, result, self.id), comment=f'data: partial result {self._counter}')\n        except Exception:\n            logger.exception('could not send a result')"), 'closure-swallows-async')
 br('C03', 'recv_msg-translates-everything', (RM, "    except OSError as e:\n        raise ConnectionClosedError() from e\n    return bytes(data)", "    except Exception as e:\n        raise ConnectionClosedError() from e\n    return bytes(data)"), 'closure-swallows-async')
+
+br('C12', 'seed-registries-cleared-before-reaping', [(RS, "            for child in itertools.chain(self.children, self.contexts.values()):", "            closing = list(itertools.chain(self.children, self.contexts.values()))\n            self.children.clear()\n            self.contexts.clear()\n            for child in closing:")], 'registry-cleared-before-reaping')
+ok('reap-loop-over-local-snapshot', (RS, "            for child in itertools.chain(self.children, self.contexts.values()):", "            closing = list(itertools.chain(self.children, self.contexts.values()))\n            for child in closing:"))
+
+br('C19', 'seed-prune-outside-the-lock', (W, "            Worker._active_children = [child for child in Worker._active_children if child.is_alive()]\n            cpy = copy.copy(Worker._active_children)\n", "            cpy = copy.copy(Worker._active_children)\n        cpy = [child for child in cpy if child.is_alive()]\n        with Worker._children_lock:\n            Worker._active_children = cpy\n"), 'prune-not-atomic')
